@@ -431,13 +431,28 @@ func c14LVM(p *ana.Prog, r *ana.Result) {
 	}
 }
 
+// isExtHdrType: v is (a load of) the field Type of a value of type nts.extHdr, whatever it is rooted at
+// (the method's own embedded header, a local header, a composite literal).
+func isExtHdrType(v ssa.Value) bool {
+	if u, ok := v.(*ssa.UnOp); ok && u.Op == token.MUL {
+		v = u.X
+	}
+	switch x := v.(type) {
+	case *ssa.FieldAddr:
+		return typeNameOf(x.X.Type()) == "extHdr" && fieldNameOf(x.X.Type(), x.Field) == "Type"
+	case *ssa.Field:
+		return typeNameOf(x.X.Type()) == "extHdr" && fieldNameOf(x.X.Type(), x.Field) == "Type"
+	}
+	return false
+}
+
 // packTypeConst: the constant stored into extHdr.Type by a pack method.
 func packTypeConst(fn *ssa.Function) (int64, bool) {
 	var k int64
 	n := 0
 	ana.Instrs(fn, func(in ssa.Instruction) {
 		if st, ok := in.(*ssa.Store); ok {
-			if ch, _ := fieldChain(st.Addr); ch == "extHdr.Type" {
+			if isExtHdrType(st.Addr) {
 				if v, ok := ana.ConstInt(st.Val); ok {
 					k = v
 					n++
@@ -457,7 +472,7 @@ func unpackTypeConst(fn *ssa.Function) (int64, bool) {
 		if !isCmp || (c.Op != token.EQL && c.Op != token.NEQ) {
 			return
 		}
-		if ch, _ := fieldChain(c.X); ch == "extHdr.Type" {
+		if isExtHdrType(c.X) {
 			if v, ok := ana.ConstInt(c.Y); ok {
 				k = v
 				n++
